@@ -583,3 +583,63 @@ package proto
 //@   ensures err == nil && rows > 0 ==> (c.Key == 0 ==> len(c.Keys8) == rows) && (c.Key == 1 ==> len(c.Keys16) == rows) && (c.Key == 2 ==> len(c.Keys32) == rows) && (c.Key == 3 ==> len(c.Keys64) == rows) [C06] {keys-column-has-the-block-row-count}
 //@   ensures err == nil ==> r.failed == old(r.failed)
 //@   ensures old(r.pos) <= r.pos && r.pos <= r.end
+
+//@ contract (c ColAuto) DecodeColumn(r, rows) (err) props(C06,C07,C08)
+//@   requires c.Data != nil && r != nil && c.Data.nrows == 0 && 0 <= rows && rows <= maxRowsInBLock
+//@   modifies c.Data.nrows, r.pos, r.failed, r.b.Buf
+//@   ensures err == nil ==> c.Data.nrows == rows [C06] {rows}
+//@   ensures err == nil ==> r.failed == old(r.failed)
+//@   ensures old(r.pos) <= r.pos && r.pos <= r.end
+
+//@ -- column metadata of an INSERT: names and types only, rows are refused
+//@ contract (s *ColInfoInput) DecodeResult(r, version, b) (err) props(C06,C07,C08)
+//@   requires s != nil && r != nil && 0 <= b.Columns
+//@   modifies *s, r.pos, r.failed, r.b.Buf
+//@   ensures b.Rows > 0 ==> err != nil [C06,C18] {rows-are-refused}
+//@   ensures err == nil ==> len((*s)) == b.Columns [C06,C18] {one-entry-per-column}
+//@   ensures err == nil ==> r.failed == old(r.failed)
+//@   ensures old(r.pos) <= r.pos && r.pos <= r.end
+//@ loop 0 (i)
+//@   modifies *s, r.pos, r.failed, r.b.Buf
+//@   invariant 0 <= i && i <= b.Columns && len((*s)) == i
+//@   invariant r.failed == old(r.failed) && old(r.pos) <= r.pos && r.pos <= r.end
+
+//@ contract appendEnum(raw, mapping, values) (out, err) props(C06)
+//@   ensures err == nil ==> len(out) == len(entry(values)) + len(raw) {one-string-per-raw-value}
+//@ loop 0 (values, rangeindex)
+//@   invariant -1 <= rangeindex && rangeindex < len(raw) && len(values) == len(entry(values)) + rangeindex + 1
+
+//@ contract (e *ColEnum) DecodeColumn(r, rows) (err) props(C06,C07,C08)
+//@   requires e != nil && r != nil && 0 <= rows && rows <= maxRowsInBLock && len(e.raw8) == 0 && len(e.raw16) == 0
+//@   modifies e.raw8, e.raw16, contents(e.raw8), contents(e.raw16), e.Values, contents(e.Values), r.pos, r.failed, r.b.Buf
+//@ -- (that Values ends up with exactly `rows` entries needs e.base == e.t.Base(), a relation between
+//@ -- two type strings established by Infer; string-level, not modelled: safety obligations only)
+//@   ensures err == nil ==> r.failed == old(r.failed)
+//@   ensures old(r.pos) <= r.pos && r.pos <= r.end
+
+//@ -- state prefixes of wrappers: delegated to the wrapped column when it has state
+//@ contract (c *ColArr) DecodeState(r) (err) props(C06,C07,C08)
+//@   requires c != nil && r != nil && c.Data != nil
+//@   modifies r.pos, r.failed, r.b.Buf
+//@   ensures err == nil ==> r.failed == old(r.failed)
+//@   ensures old(r.pos) <= r.pos && r.pos <= r.end
+//@ contract (c *ColNullable) DecodeState(r) (err) props(C06,C07,C08)
+//@   requires c != nil && r != nil && c.Values != nil
+//@   modifies r.pos, r.failed, r.b.Buf
+//@   ensures err == nil ==> r.failed == old(r.failed)
+//@   ensures old(r.pos) <= r.pos && r.pos <= r.end
+//@ contract (c *ColLowCardinality) DecodeState(r) (err) props(C06,C07,C08)
+//@   requires c != nil && r != nil
+//@   modifies r.pos, r.failed, r.b.Buf
+//@   ensures err == nil ==> r.failed == old(r.failed)
+//@   ensures old(r.pos) <= r.pos && r.pos <= r.end
+//@ contract (c *ColLowCardinalityRaw) DecodeState(r) (err) props(C06,C07,C08)
+//@   requires c != nil && r != nil
+//@   modifies r.pos, r.failed, r.b.Buf
+//@   ensures err == nil ==> r.failed == old(r.failed)
+//@   ensures old(r.pos) <= r.pos && r.pos <= r.end
+//@ contract (c *ColMap) DecodeState(r) (err) props(C06,C07,C08)
+//@   requires c != nil && r != nil && c.Keys != nil && c.Values != nil
+//@   modifies r.pos, r.failed, r.b.Buf
+//@   ensures err == nil ==> r.failed == old(r.failed)
+//@   ensures old(r.pos) <= r.pos && r.pos <= r.end
